@@ -200,8 +200,8 @@ def future_resolution(chk: Check) -> None:
                            node=s.call, kind='writer')
     chk.floor('OWN-process-future', n, 3)
     # assignments of _future: constructor, load, and the replacement in on_except
-    from ..rules import attr_writers
-    for f, node in attr_writers(prog, '_future'):
+    from ..rules import effective_writers
+    for f, node in effective_writers(prog, '_future'):
         ok = f.qualname in ('processes.Process.__init__', 'processes.Process.load_instance_state')
         if not ok and f.name in allowed and f.cls is not None:
             # a terminal-entry hook may replace a future that is ALREADY done (finished before excepting, cancelled before the kill)
@@ -348,8 +348,15 @@ def terminal_notifications(chk: Check) -> None:
     # listeners are each called once per event
     eh = prog.func('event_helper.EventHelper.fire_event')
     loops = [n for n in ast.walk(eh.node) if isinstance(n, ast.For)]
-    ok = len(loops) == 1 and 'self.listeners' in norm(loops[0].iter) or (loops and 'self._listeners' in norm(loops[0].iter))
-    calls = [x for x in ast.walk(eh.node) if isinstance(x, ast.Call) and isinstance(x.func, ast.Call) and norm(x.func.func) == 'getattr']
+    from ..rules import Resolver
+    res_eh = Resolver(eh)
+    it_txt = res_eh.text(loops[0].iter) if loops else ''
+    ok = len(loops) == 1 and ('self.listeners' in it_txt or 'self._listeners' in it_txt)
+    calls = []
+    for x in [y for l in loops for y in ast.walk(l) if isinstance(y, ast.Call)]:
+        fx = res_eh.expand(x.func)
+        if isinstance(fx, ast.Call) and norm(fx.func) == 'getattr' and fx.args and norm(fx.args[0]) == norm(loops[0].target):
+            calls.append(x)
     ok = ok and len(calls) == 1 and [norm(a) for a in calls[0].args] == [f'*{eh.node.args.vararg.arg}']
     chk.ob('PROV-terminal-event-arg', eh, bool(ok), 'every listener receives the event once with the given arguments', kind='listener-loop')
 
@@ -393,7 +400,9 @@ def close_once(chk: Check) -> None:
     guard = bool(oc_calls) and all(falsy(fs, 'self._closed') for c in oc_calls for _, fs in fc.site_facts(c))
     on_close = prog.func('processes.Process.on_close')
     cfg2 = cfg_of(on_close)
-    loops = [n for n in ast.walk(on_close.node) if isinstance(n, ast.For) and 'self._cleanups' in norm(n.iter)]
+    from ..rules import Resolver
+    res_oc = Resolver(on_close)
+    loops = [n for n in ast.walk(on_close.node) if isinstance(n, ast.For) and 'self._cleanups' in res_oc.text(n.iter)]
     consumes = any(isinstance(n, ast.Assign) and norm(n.targets[0]) == 'self._cleanups' and norm(n.value) in ('None', '[]') for n in ast.walk(on_close.node))
     chk.ob('PAIR-cleanups-once', cl, bool(oc_calls), 'close() reaches on_close', kind='reaches-on-close')
     chk.ob('PAIR-cleanups-once', on_close, guard or consumes, f'cleanups cannot run twice: close() guarded by not-closed={guard}, on_close consumes the list={consumes}',
